@@ -159,6 +159,15 @@ def explore(tier_, seed, prop, kinds=("query",), adversarial=0.08, fail=0.08, wi
     rng = random.Random(seed * 65537 + zlib_crc(prop))
     n_schemas, n_cases = n_override or ((5, 60) if tier_ == "quick" else (40, 150))
     files, meta = [], []
+    results, names = [], []
+
+    def flush(force=False):
+        # case files are evaluated in batches as they are produced: their texts (several GB in the thorough tier) are
+        # never all in memory at once
+        if files and (force or len(files) >= 24):
+            results.extend(common.run_coq_many(files))
+            names.extend(f[0] for f in files)
+            files.clear()
     cfg = {"parent": True, "list": True, "args": "gather"}
     for si in range(-1, n_schemas):
         if si == -1:
@@ -168,6 +177,19 @@ def explore(tier_, seed, prop, kinds=("query",), adversarial=0.08, fail=0.08, wi
         else:
             s = execgen.gen_exec_schema(rng, with_mutation=with_mutation)
             cases = gen_cases(rng, s, n_cases, kinds, adversarial, fail)
+            # "initial value": on some schemas about half of the ROOT fields have no resolver and read the caller's
+            # initial value (dict or attribute object, keys possibly missing) -- own random stream, the main one is untouched
+            r2 = random.Random(seed * 8191 + si * 131 + zlib_crc(prop))
+            if r2.random() < 0.5:
+                for rt in ("Query", "Mutation"):
+                    for f in (s["types"].get(rt) or {}).get("fields", []):
+                        if r2.random() < 0.5:
+                            s["resolvers"].discard((rt, f["name"]))
+                            s["field_type_resolvers"].discard((rt, f["name"]))
+                for c in cases:
+                    rt = "Mutation" if c.get("kind") == "mutation" else "Query"
+                    orc = execgen.Oracle(s, c["oracle_seed"] ^ 0x5A5A, adversarial, 0.0)
+                    c["root"] = orc.object(r2, rt, 0) if r2.random() < 0.85 else r2.choice([None, 5, "x", []])
         if expand:
             cases = expand(rng, s, cases, cfg)
         asts = [gen.parse_query(c["query"]) for c in cases]
@@ -189,8 +211,9 @@ def explore(tier_, seed, prop, kinds=("query",), adversarial=0.08, fail=0.08, wi
                               cases_file(s, cases[j:min(nm, j + step)], asts[j:min(nm, j + step)], mruns[j:j + step], mcfg, evals,
                                          extra_imports)))
                 meta.append((s, cases[j:min(nm, j + step)], asts[j:min(nm, j + step)], mruns[j:j + step], mcfg))
-    results = common.run_coq_many(files)
-    explore.files = [f[0] for f in files]
+        flush()
+    flush(force=True)
+    explore.files = names
     return meta, results
 
 
@@ -297,7 +320,7 @@ def run_property(pid, tier_, bits, explore_kwargs, property_files, extra_python_
     return rep.finish()
 
 
-C01_FILES = ["Properties/C01.v", "Proofs/CollectRefine.v", "Proofs/ExecRefine.v"]
+C01_FILES = ["Properties/C01.v", "Proofs/CollectRefine.v", "Proofs/ExecRefine.v", "Proofs/ExecCalls.v"]
 
 
 def main(tier_, replay=None):
